@@ -380,8 +380,8 @@ pub fn run(opts: &Opts) -> Report {
     let m = Malformed;
     crate::props::committed_replays(&a, opts, &mut rep);
     crate::props::committed_replays(&m, opts, &mut rep);
-    run_sub(&a, opts, opts.tier.pick(3000, 60_000), &mut rep);
-    run_sub(&m, opts, opts.tier.pick(4000, 60_000), &mut rep);
+    run_sub(&a, opts, opts.tier.pick(8000, 120_000), &mut rep);
+    run_sub(&m, opts, opts.tier.pick(10_000, 120_000), &mut rep);
     let _ = guard(|| ());
     rep
 }
